@@ -34,9 +34,17 @@ type tvOutcome struct {
 }
 
 type tvOp struct {
-	Op      string    `json:"op"` // migrate | reconcile | scan | settle
+	Op      string    `json:"op"` // migrate | reconcile | scan | settle | overlap
 	File    int       `json:"file"`
 	Outcome tvOutcome `json:"outcome"`
+	// overlap: two MigrateFile calls for the same file (both listed as candidates beforehand) run in
+	// two goroutines and are interleaved step by step: Sched[i] = 'A' | 'B' says who takes the next
+	// step (a call's first step starts it, the following ones are its durable steps); FaultA / FaultB: "" | "metafail" (UpdateTier fails; rollback works iff RollbackOK*)
+	Sched       string `json:"sched"`
+	FaultA      string `json:"fault_a"`
+	FaultB      string `json:"fault_b"`
+	RollbackOKA bool   `json:"rollback_ok_a"`
+	RollbackOKB bool   `json:"rollback_ok_b"`
 }
 
 type tvCase struct {
@@ -127,6 +135,84 @@ func tvListTier(duck *sql.DB, b *storage.LocalBackend) (map[string][]int64, erro
 		res[tvIndex(n)] = ids
 	}
 	return res, nil
+}
+
+// tvOverlap forces one interleaving of two migrations of the same file on the real Migrator.
+func tvOverlap(ctx context.Context, tm *tiering.Manager, op tvOp) string {
+	cands, err := tm.VerifMigrator().FindCandidates(ctx, tiering.TierHot, tiering.TierCold)
+	if err != nil {
+		return err.Error()
+	}
+	var cand *tiering.MigrationCandidate
+	for i := range cands {
+		if cands[i].Path == tvName(op.File) {
+			cand = &cands[i]
+		}
+	}
+	if cand == nil {
+		return "" // not a candidate: neither cycle touches the file
+	}
+	type inst struct {
+		mig      *tiering.Migrator
+		arrive   chan string
+		resume   chan struct{}
+		done     chan error
+		finished bool
+		started  bool
+		fault    string
+		rbOK     bool
+	}
+	mk := func(fault string, rb bool) *inst {
+		return &inst{mig: tiering.NewMigrator(&tiering.MigratorConfig{Manager: tm, Logger: zerolog.Nop()}),
+			arrive: make(chan string), resume: make(chan struct{}), done: make(chan error, 1), fault: fault, rbOK: rb}
+	}
+	a, b := mk(op.FaultA, op.RollbackOKA), mk(op.FaultB, op.RollbackOKB)
+	byMig := map[*tiering.Migrator]*inst{a.mig: a, b.mig: b}
+	tiering.VerifHook.PointM = func(m *tiering.Migrator, name string) {
+		if in, ok := byMig[m]; ok {
+			in.arrive <- name
+			<-in.resume
+		}
+	}
+	defer func() { tiering.VerifHook.PointM = nil }()
+	wait := func(in *inst) {
+		select {
+		case <-in.arrive:
+		case <-in.done:
+			in.finished = true
+		}
+	}
+	grant := func(in *inst) {
+		if in.finished {
+			return
+		}
+		tiering.VerifHook.MetaFail = in.fault == "metafail"
+		tiering.VerifHook.RollbackFail = in.fault == "metafail" && !in.rbOK
+		if !in.started {
+			// the first scheduled step of a call starts it: it runs up to its first hook point
+			// (before_copy) or returns at once when MigrateFile refuses the path
+			in.started = true
+			c := *cand
+			go func() { in.done <- in.mig.MigrateFile(ctx, c) }()
+		} else {
+			in.resume <- struct{}{}
+		}
+		wait(in)
+		tiering.VerifHook.MetaFail, tiering.VerifHook.RollbackFail = false, false
+	}
+	for _, ch := range op.Sched {
+		if ch == 'A' {
+			grant(a)
+		} else {
+			grant(b)
+		}
+	}
+	for _, in := range []*inst{a, b} { // let both return (no durable step is left after a complete schedule)
+		for !in.finished {
+			grant(in)
+		}
+	}
+	return ""
 }
 
 func tvRunCase(t *testing.T, duck *sql.DB, c tvCase) (res tvCaseObs) {
@@ -233,6 +319,10 @@ func tvRunCase(t *testing.T, duck *sql.DB, c tvCase) (res tvCaseObs) {
 					res.Err = err.Error()
 					return
 				}
+			}
+		case "overlap":
+			if msg := tvOverlap(ctx, tm, op); msg != "" {
+				ob.Err = msg
 			}
 		case "reconcile":
 			tm.VerifMigrator().ReconcileOrphanedFiles(ctx)
